@@ -765,11 +765,39 @@ class RaiseModel:
         return set(), False
 
     # -- calls ------------------------------------------------------------------
-    def _call(self, cfg: CFG, n: Node) -> Set[str]:
+    LAZY_BUILDERS = {'itertools.islice', 'builtins.map', 'builtins.iter', 'builtins.filter',
+                     'builtins.zip', 'builtins.enumerate', 'itertools.chain'}
+
+    def _lazy_raises(self, cfg: CFG, e: ast.AST) -> Set[str]:
+        """Idiom table (DESIGN 2.3): a lazy iterator built from
+        `iter(callable, sentinel)` raises, when consumed, what the callable
+        raises."""
+        out: Set[str] = set()
+        if not isinstance(e, ast.Call):
+            return out
+        name = cfg.res.path(e.func) or ''
+        if name == 'builtins.iter' and len(e.args) == 2:
+            fake = ast.Call(func=e.args[0], args=[], keywords=[])
+            fn = Node(-1, 'call', fake, getattr(e, 'lineno', 0))
+            out |= self._call(cfg, fn, lazy=True)
+            return out
+        if name in self.LAZY_BUILDERS:
+            for a in e.args:
+                out |= self._lazy_raises(cfg, a)
+        return out
+
+    def _call(self, cfg: CFG, n: Node, lazy: bool = False) -> Set[str]:
         call = n.ast
         assert isinstance(call, ast.Call)
         info = callee_info(cfg, call)
         n.meta['callee'] = info
+        if not lazy and (info.get('name') or '') not in self.LAZY_BUILDERS:
+            extra: Set[str] = set()
+            for a in call.args:
+                extra |= self._lazy_raises(cfg, a)
+            if extra:
+                n.meta['lazy_raises'] = sorted(extra)
+                return extra | self._call(cfg, n, lazy=True)
         kind = info['kind']
         if kind == 'user':
             return {ANY}
